@@ -262,6 +262,12 @@ def run_job(job, workdir):
     # A FAILURE comes with a concrete trace and is definitive even when other obligations were left
     # UNKNOWN -- except a failed unwinding/recursion assertion, which only says the bound was too small.
     real_fail = [o for o in r.failed if not re.search(r'\.unwind\.|\.recursion|unwinding assertion', o[0] + ' ' + o[1])]
+    if real_fail and job.loop_contracts and all(re.search(r'Check that .* is assignable', o[1]) for o in real_fail):
+        # only frame checks of a loop contract fail: the loop writes something the hand-written `assigns` clause does not
+        # list (typically a new local after a harmless rewrite).  That is a failed PROOF, not a counterexample to the
+        # property: a change that breaks the property also breaks an invariant step or a postcondition.
+        r.reason = 'only frame checks of a loop contract failed (%s): the loop no longer matches its assigns clause -- proof failed, property undecided' % real_fail[0][1][:80]
+        return r
     if real_fail:
         r.failed = real_fail + [o for o in r.failed if o not in real_fail]
         r.status = 'fail'
